@@ -297,7 +297,7 @@ func replaySpecial(path string) (int, bool) {
 					hit = true
 					fmt.Printf("replayed: clause=%s %s\n", v.Clause, v.Detail)
 				}
-			}, u, hist[:n], f.Replay.Mode == "tx", object.NewMemoryStore(), bs, &st, &smp)
+			}, u, hist[:n], f.Replay.Mode, object.NewMemoryStore(), bs, &st, &smp)
 		}
 		if hit {
 			fmt.Printf("VIOLATION property=C15 replay=%s\n", path)
